@@ -702,8 +702,9 @@ def judge_grammar(ctx, m, g, r, is_random):
                               "resolved_shift_reduce_slots": resolved,
                               "members_up_to_bound": n_in, "non_members": n_out,
                               "example_member": " ".join(max((w for w in words if lang.get(w)), key=len)),
-                              "judged": "soundness+value only" if skip_complete else (
-                                  "acceptance only" if skip_value else "full")})
+                              "judged": "accepted => derivable, value" if (resolved or skip_complete) else (
+                                  "acceptance both directions, value not compared" if skip_value
+                                  else "acceptance both directions, value")})
     else:
         m.count("grammars.accepted_trivial_language")
     earley_sample(ctx, m, g, prods, lang, words, r)
